@@ -108,10 +108,15 @@ class StmtMixin:
                     return
             if isinstance(base, ast.Attribute) and base.attr in self.m.fields:
                 o = self.ev(base.value, st)
+                if isinstance(o, T) and o.sort == ("Opt", REF):
+                    o = unopt(o)
+                h = self.field(st, base.attr)
                 if isinstance(o, T) and o.sort == REF:
-                    h = self.field(st, base.attr)
                     nv = self.opaque("upd", self.m.fields[base.attr])
                     st.heap[base.attr] = T(h.sort, f"(store {h.s} {o.s} {nv.s})")
+                else:
+                    # the receiver is not a typed reference: any object's field may have been written
+                    st.heap[base.attr] = self.ctx.fresh(h.sort, "H_" + base.attr)
             elif isinstance(base, ast.Name) and base.id in st.env and isinstance(st.env[base.id], T):
                 st.env[base.id] = self.opaque("upd_" + base.id, st.env[base.id].sort)
             self.note("abstracted-store", ast.unparse(tgt)[:50], tgt.lineno)
@@ -162,6 +167,18 @@ class StmtMixin:
                 st.pc.append(f"(= (seq.len {r.s}) (+ (seq.len {cur.s}) 1))")
                 st.pc.append(f"(forall ((|q_a| Int)) (! (=> (and (>= |q_a| 0) (< |q_a| (seq.len {cur.s}))) (= (seq.nth {r.s} |q_a|) (seq.nth {cur.s} |q_a|))) :pattern ((seq.nth {r.s} |q_a|))))")
                 st.pc.append(f"(= (seq.nth {r.s} (seq.len {cur.s})) {v.s})")
+                st.ghost["yielded"] = r
+                return
+            if isinstance(s.value, ast.YieldFrom) and self.cur_contract.get("yields") is not None:
+                # yield from <sequence-valued expression>: the ghost sequence is extended by that sequence
+                ys = self.cur_contract["yields"]
+                v = self.coerce(self.ev(s.value.value, st), ys, "yield from")
+                cur = st.ghost["yielded"]
+                r = self.opaque("yl", ys)
+                st.pc.append(f"(= {r.s} (seq.++ {cur.s} {v.s}))")
+                st.pc.append(f"(= (seq.len {r.s}) (+ (seq.len {cur.s}) (seq.len {v.s})))")
+                st.pc.append(f"(forall ((|q_a| Int)) (! (=> (and (>= |q_a| 0) (< |q_a| (seq.len {cur.s}))) (= (seq.nth {r.s} |q_a|) (seq.nth {cur.s} |q_a|))) :pattern ((seq.nth {r.s} |q_a|))))")
+                st.pc.append(f"(forall ((|q_a| Int)) (! (=> (and (>= |q_a| 0) (< |q_a| (seq.len {v.s}))) (= (seq.nth {r.s} (+ (seq.len {cur.s}) |q_a|)) (seq.nth {v.s} |q_a|))) :pattern ((seq.nth {v.s} |q_a|))))")
                 st.ghost["yielded"] = r
                 return
             self.ev(s.value, st)
@@ -359,7 +376,7 @@ class StmtMixin:
                         locs.add(self._root(t.value).id)
                     if isinstance(t, ast.Attribute) and t.attr in self.m.fields:
                         flds.add(t.attr)
-                if isinstance(x, ast.Yield) and self.cur_contract.get("yields") is not None:
+                if isinstance(x, (ast.Yield, ast.YieldFrom)) and self.cur_contract.get("yields") is not None:
                     ghosts.add("yielded")
                 if isinstance(x, ast.Call):
                     f = x.func
